@@ -866,6 +866,9 @@ func (p *Prog) UnresolvedKeys() []string {
 			out = append(out, k)
 		}
 	}
+	for k := range missingFields {
+		out = append(out, k)
+	}
 	sort.Strings(out)
 	return out
 }
